@@ -203,15 +203,17 @@ def label(cfg):
 
 def task(cfg):
     check_general_position(cfg)
-    holder = []
+    stats = {}
 
-    def build():
-        w = build_world(cfg)
-        holder.append(w.ref)
-        return w
+    def on_state(w, h):  # coverage only: which clause of the documented rule decided this transition
+        if h[-1][0] == "R" and w.ref.last_why:
+            name = "rule_" + w.ref.last_why
+            stats[name] = stats.get(name, 0) + 1
+        return None
 
-    cov, viols = explore(build, PROP, label(cfg), max_depth=cfg.get("D"), max_states=cfg.get("max_states"),
-                         ctx=ctx_of(cfg), want_samples=1)
+    cov, viols = explore(lambda: build_world(cfg), PROP, label(cfg), max_depth=cfg.get("D"),
+                         max_states=cfg.get("max_states"), ctx=ctx_of(cfg), want_samples=1, on_state=on_state)
+    cov.extra.update(stats)
     cov.outcome("cfg:prio=" + PRIOS[cfg["prio"]][0] + ("(default)" if cfg["prio"] == "default" else ""))
     cov.outcome("cfg:mode=" + cfg["mode"])
     cov.outcome("cfg:sys=" + cfg["sys"] + "/b" + str(cfg["brackets"]))
@@ -242,7 +244,7 @@ def level_perms(T, k, levels, p_pair, idx):
 MODES2 = ["none", "min", "max", "mm", "mM", "Mm", "MM"]
 
 
-def family(out, seed, systems, nbs, prios, T, W, n_tab, cap, tabs="rot"):
+def family(out, seed, systems, nbs, prios, T, W, n_tab, cap, tabs="rot", pick=None):
     """systems x brackets x priorities; the mode spec and the objective-rank tables rotate with a running
     index so that every mode spec meets every priority / system and the second objective's permutation walks
     through all T! orders (tabs="all": every permutation for every combination)."""
@@ -251,7 +253,10 @@ def family(out, seed, systems, nbs, prios, T, W, n_tab, cap, tabs="rot"):
         sy = SYSTEMS[sname]
         levels = [lv for lv in moasha_levels(sy["grace"], sy["rf"], sy["max_t"], 0) if lv <= sy["R"]]
         for nb in nbs:
-            for pi_, prio in enumerate(prios):
+            sel_prios = list(enumerate(prios))
+            if pick:  # a rotating subset of the priorities per system (all of them occur over the systems)
+                sel_prios = [sel_prios[(si * pick + j + seed) % len(prios)] for j in range(pick)]
+            for pi_, prio in sel_prios:
                 ci = len(out)
                 if tabs == "all":
                     sel = list(range(len(ps)))
@@ -272,7 +277,7 @@ def configs(tier, seed):
         systems = ["g1rf2m4", "g1rf3m4", "g2rf2m5", "g2rf3m4", "g1rf2m5s"]
         prios = ["default", "nd1", "ndNL", "fix", "fix1", "lin", "linw"]
         family(out, seed, systems, (1,), prios, T=4, W=2, n_tab=4, cap=20000)
-        family(out, seed, systems, (2,), prios, T=4, W=2, n_tab=1, cap=20000)
+        family(out, seed, systems, (2,), prios, T=4, W=2, n_tab=1, cap=20000, pick=3)
         family(out, seed, ["g1rf2m4"], (1,), ["default", "fix1", "lin"], T=5, W=2, n_tab=3, cap=20000)
     else:
         systems = list(SYSTEMS)
@@ -339,6 +344,9 @@ def run(tier, seed):
             for key, what, rp in payload:
                 if key not in seen_enum:
                     seen_enum[key] = Violation(PROP, key, what, dict(rp, engine="enum"))
+    # report the simplest witness per key (fewest objectives / events), independent of the job order
+    res.violations.sort(key=lambda v: (v.replay["cfg"]["k"], len(v.replay["history"]), v.replay["cfg"]["T"],
+                                       v.replay["cfg"]["brackets"]))
     res.violations.extend(seen_enum.values())
     res.rule = (
         "Part 1: every ordered sequence of n grid points (ties, duplicates) x dim in {None (every answer of the owned "
@@ -363,6 +371,9 @@ def run(tier, seed):
         "leave floor(n/rf) vs (r-1)/n <= 1/rf open)",
     ]
     res.cov.extra["boundary_rule"] = "b*rf<=n must continue; a*rf>n must stop; else both accepted"
+    for k in ("cpu_s_mo", "cpu_s_enum"):
+        if k in res.cov.extra:
+            res.cov.extra[k] = int(res.cov.extra[k])
     return res
 
 
